@@ -4,7 +4,7 @@ SPEC = {
     "gen": [],
     "streams": [
         {"name": "failtx", "cmd": "failtx",
-         "args": {"quick": ["-cases", "200", "-per", "50"], "thorough": ["-cases", "5000", "-per", "100"]},
+         "args": {"quick": ["-cases", "260", "-per", "65"], "thorough": ["-cases", "5000", "-per", "100"]},
          "search_args": ["-cases", "3000", "-per", "100"]},
     ],
     "trusted_base": [
@@ -23,5 +23,5 @@ SPEC = {
 MANIFEST = {
     "technique": "Coq proof (generic atomicity of the multiplexer pipeline and of the overlay transaction layer for arbitrary handler programs, by induction over programs) + twin-replica differential execution of the real multiplexer on full state dumps",
     "level_text": "Theorems in coq/Props/C08.v hold for all states, all transactions and ARBITRARY handler programs (any reads, writes, removals, gas use, nested NewTransaction layers): an uncommitted transaction layer is discarded literally, a committed one applies exactly its body's writes; authentication writes only fee and nonce+1; a transaction rejected up to authentication changes nothing; a failing delivered transaction leaves exactly the pre-state or exactly the post-authentication state PROVIDED its handler is atomic (proved for every handler following 'validate first, write last' or 'fallible writes inside NewTransaction/Commit'; proved FALSE without the premise, because the multiplexer never rolls back); CheckTx and EstimateGas never change the delivery state. The claim about the real handlers rests on the twin-replica stream: for every generated failing transaction the real multiplexer executes the same block with and without it from identical histories and the two complete MKVS dumps may differ only at the signer's account (nonce+1, balance-fee) and the fee-flow keys, or not at all when authentication did not pass.",
-    "level_note": "Handlers of the individual apps (staking, registry, governance, roothash, vault, key manager, beacon) are NOT modelled in Coq: T gives the generic mux/overlay atomicity and the authentication-write lemma for arbitrary handler programs, the per-handler claim rests on the twin-replica stream (sampled, not proved). Trusted: Coq kernel; muxdrv and the failtx oracle; the harness-side authentication predicate. Not modelled: events, block gas limit, system transactions, runtime-dependent handlers beyond their early failure paths (no runtime is registered in the harness genesis).",
+    "level_note": "Handlers of the individual apps (staking, registry, governance, roothash, vault, key manager, beacon) are NOT modelled in Coq: T gives the generic mux/overlay atomicity and the authentication-write lemma for arbitrary handler programs, the per-handler claim rests on the twin-replica stream (sampled, not proved). Trusted: Coq kernel; muxdrv and the failtx oracle; the harness-side authentication predicate. Not modelled: events, block gas limit, system transactions, runtime-dependent handlers beyond their early failure paths (a compute runtime with one worker is registered, but no executor commitments are produced, so roothash commit/finalization paths end at their early failures).",
 }
